@@ -240,6 +240,23 @@ func checkC15(c *Ctx, r *Report) {
 
 	// (5) reader selection and flag handling
 	checkSensorReaders(c, r)
+
+	// (6) the flags and the raw reading come from the specified wire bits, on every decode
+	// (a reader polls by decoding into the same response value again and again)
+	r.Rule("reading-flags-layout", "Get Sensor Reading response: reading = byte 0, event messages [7], scanning enabled [6], reading unavailable [5] of byte 1 (IPMI v2.0 §35.14), assigned on every success path", 5)
+	for _, sp := range responseSpecs {
+		if sp.Type == "GetSensorReadingRsp" {
+			compareSpec(c, r, []layerSpec{sp}, "field", nil)
+		}
+	}
+	if fn := c.Method("pkg/ipmi", "GetSensorReadingRsp", "DecodeFromBytes"); fn != nil {
+		lf := newLenflow(c, 4)
+		lf.runEntry(fn, nil)
+		k := &c17{c: c, lf: lf, cache: map[*ssa.Function]*writeSummary{}, busy: map[*ssa.Function]bool{}}
+		reportAssignment(c, r, k, fn)
+	} else {
+		r.Lost("ipmi.GetSensorReadingRsp.DecodeFromBytes")
+	}
 }
 
 // bitsOf returns the size in bits of a basic integer type (0 if not an integer).
